@@ -417,6 +417,7 @@ def run_code_mutants(mutants):
             open(fp, "w").write(src.replace(old, new, 1))
             env = dict(os.environ)
             env["VERIF_REPO"] = wt
+            env["VERIF_NO_EVIDENCE"] = "1"  # runs against a mutated tree must not overwrite the evidence files
             q = subprocess.run([os.path.join(lib.VERIF, "check"), pid, "--tier", "quick"], env=env,
                                capture_output=True, text=True)
             flagged = q.returncode == 1 and "VIOLATION property=%s" % pid in q.stdout
